@@ -22,10 +22,38 @@ HOOKS = {
 }
 
 
+_SEEN = set()
+
+
 def _one(args):
     seed, idx, algo, force = args
     hk = HOOKS.get(algo, lambda: {})()
-    return algo_cases.gen_algo_case(seed, idx, algo, force=force, hooks=hk)
+    if os.environ.get("PYXAB_VERIF_TIER") != "thorough":
+        return algo_cases.gen_algo_case(seed, idx, algo, force=force, hooks=hk)
+    # thorough tier: record which source lines of the library this case executes (reported in evidence)
+    import sys
+    root = os.path.join(REPO, "PyXAB") + os.sep
+    new = set()
+
+    def tracer(frame, event, arg):
+        fn = frame.f_code.co_filename
+        if not fn.startswith(root) or "tests" in fn:
+            return None
+
+        def local(fr, ev, a):
+            if ev == "line":
+                k = (fr.f_code.co_filename[len(root):], fr.f_lineno)
+                if k not in _SEEN:
+                    _SEEN.add(k); new.add(k)
+            return local
+        return local
+    sys.settrace(tracer)
+    try:
+        c = algo_cases.gen_algo_case(seed, idx, algo, force=force, hooks=hk)
+    finally:
+        sys.settrace(None)
+    c.cov = sorted(new)
+    return c
 
 
 def run_cases(specs, parallel=True):
